@@ -19,8 +19,8 @@ PROP = dict(
          "compiler+VM under step budgets {1000},{1},{2,3,7},{100}; output + final value (Runtime::top for int/bool/"
          "string) + error kind compared with Abra.Sem on the generator's own AST; every F0 program additionally: real "
          "unoptimised <main> instruction stream (optimizer-trace hook) vs compileF0, modulo label names and slot "
-         "numbering; main stream is DepthSafe and includes the shapes of the repaired defects D36-D41 as long as their start-up probes pass ("
-         "hist keys shape:*); D21 witnesses replayed; non-trivial = program with output, an error, or a jump in its code",
+         "numbering; main stream is DepthSafe; ten regression programs of repaired defects (D16, D36-D39, D41, N6, N7, D59, D71) must behave as "
+         "the reference says (spec_fail otherwise, hist keys regression:*) and their shapes are unconditionally in the stream; D21 witnesses replayed; non-trivial = program with output, an error, or a jump in its code",
     nontrivial=lambda req, imp: (req.startswith("sem") and (imp.startswith("error") or not imp.endswith(" -")))
                                 or (req.startswith("cgen") and "jump" in imp),
     trusted_base=COMMON_TB + [
